@@ -330,3 +330,22 @@ Definition contract (s : shape_ops) : Prop :=
       (i = 0 -> st = 0) /\
       (i + 1 = numChains s -> st + ln = numEdges s) /\
       (i + 1 < numChains s -> exists ln', chainAt s (i + 1) = Ok (st + ln, ln'))).
+
+(** a flat encoding of the observation table (the correspondence files elaborate a [list Z]
+    several times faster than nested constructors): Panic = 0, Ok (a, b) = (a+2) * 2^22 + (b+2)
+    for a, b in [-2, 2^22 - 2) *)
+Definition code_zz (r : res (Z * Z)) : Z :=
+  match r with Panic => 0 | Ok (a, b) => (a + 2) * 4194304 + (b + 2) end.
+Definition encode_dump (d : shape_dump) : list Z :=
+  d_numEdges d :: d_numChains d :: map code_zz (d_edges d) ++ map code_zz (d_positions d) ++
+  flat_map (fun c => code_zz (fst c) :: map code_zz (snd c)) (d_chains d).
+
+(** two 31-bit polynomial checksums (mod 2^31, odd multipliers) of the flat table: the
+    correspondence compares them with the checksums the harness computes over the implementation's
+    table (elaborating the full expected table in every case costs far more than evaluating the
+    model; [Z.land] because [Z.modulo] is slow under vm_compute) *)
+Definition hash_step (m : Z) (h x : Z) : Z := Z.land (h * m + x + 12345) 2147483647.
+Definition hash2 (l : list Z) : Z * Z :=
+  (fold_left (hash_step 1000003) l 7, fold_left (hash_step 69069) l 11).
+Definition hash_eqb (l : list Z) (h1 h2 : Z) : bool :=
+  let '(a, b) := hash2 l in (a =? h1) && (b =? h2).
